@@ -745,6 +745,44 @@ def rule_r13(ctx) -> RuleResult:
     return shared(c15.rule_r5(ctx), "C01.R13", "the cookie table is not reset by the parser (shared with C15.R5)",
                   "placeholder characters whose entry was dropped stay in the tree or resolve to another construct", min_instances=6)
 
+def rule_r14(ctx) -> RuleResult:
+    """Internal placeholder characters (MAGIC_*_CHAR) that stand in for quotes, brackets and
+    <nowiki /> while text is tokenised are turned back by `.replace(MAGIC_X, <literal>)` statements.
+    Text reaches those statements from recursive calls and from callers with the placeholders
+    already inserted, so the reversal must not depend on a local flag recording whether *this*
+    invocation inserted one."""
+    rr = RuleResult("C01.R14", "placeholder characters are turned back unconditionally (never under a local did-I-insert-it flag)", min_instances=4)
+    for dotted, m, f in ctx.index.all_functions():
+        if dotted.split(".")[0] not in ("core", "parser"):
+            continue
+        parents = m.parents
+        flags = {}
+        for n in walk_no_nested(f):
+            if isinstance(n, ast.Assign) and len(n.targets) == 1 and isinstance(n.targets[0], ast.Name):
+                flags.setdefault(n.targets[0].id, []).append(n.value)
+        bool_flags = {k for k, vs in flags.items() if all(isinstance(v, ast.Constant) and isinstance(v.value, bool) for v in vs)}
+        for n in walk_no_nested(f):
+            if not (isinstance(n, ast.Call) and isinstance(n.func, ast.Attribute) and n.func.attr == "replace" and len(n.args) == 2
+                    and isinstance(n.args[0], ast.Name) and re.fullmatch(r"MAGIC_[A-Z_]*CHAR", n.args[0].id)
+                    and isinstance(n.args[1], ast.Constant)):
+                continue
+            guards = []
+            q = n
+            while q in parents and parents[q] is not f:
+                q = parents[q]
+                if isinstance(q, ast.If):
+                    guards.extend(x.id for x in ast.walk(q.test) if isinstance(x, ast.Name) and x.id in bool_flags)
+            label = unparse(n)[:60]
+            if guards:
+                rr.bad(Finding("C01.R14", m.relpath, dotted, label,
+                               "the placeholder is only turned back when the local flag `{}` is set: text that arrives with the placeholder already "
+                               "inserted (a recursive call, e.g. the title of a heading) keeps the private-use character, which ends up in "
+                               "attribute values and strings of the tree".format(guards[0]), n.lineno))
+            else:
+                rr.ok(dotted, label + " is not flag-guarded", {"fn": dotted, "stmt": label})
+    return rr
+
+
 def run(ctx) -> list:
     return [rule_r1(ctx), rule_r2(ctx), rule_r3(ctx), rule_r4(ctx), rule_r5(ctx), rule_r6(ctx), rule_r7(ctx), rule_r8(ctx),
-            rule_r9(ctx), rule_r10(ctx), rule_r11(ctx), rule_r12(ctx), rule_r13(ctx)]
+            rule_r9(ctx), rule_r10(ctx), rule_r11(ctx), rule_r12(ctx), rule_r13(ctx), rule_r14(ctx)]
